@@ -224,7 +224,7 @@ func defaultStreamMapFilter[T any](key string, isr streamReader) (streamReader, 
 
 func defaultStreamConverter[T any](reader streamReader) streamReader {
 	return packStreamReader(schema.StreamReaderWithConvert(reader.toAnyStreamReader(), func(v any) (T, error) {
-		vv, ok := v.(T)
+		vv, ok := assertType[T](v)
 		if !ok {
 			var t T
 			return t, fmt.Errorf("runtime type check fail, expected type: %T, actual type: %T", t, v)
@@ -234,7 +234,7 @@ func defaultStreamConverter[T any](reader streamReader) streamReader {
 }
 
 func defaultValueChecker[T any](v any) (any, error) {
-	nValue, ok := v.(T)
+	nValue, ok := assertType[T](v)
 	if !ok {
 		var t T
 		return nil, fmt.Errorf("runtime type check fail, expected type: %T, actual type: %T", t, v)
